@@ -2295,13 +2295,20 @@ fn main() {
                             }
                         }
                     }
+                    let mut a = a;
                     if a.map_or(false, |a| a >= blk.stmts.len()) {
-                        die(&format!("{ctx}: no statement follows the @@from anchor: {from}"));
+                        if d.allow_empty && to == "$" {
+                            // `@@from >anchor` + `@@to $` + `@@allow_empty`: nothing follows the anchor any more
+                            empty_slice = true;
+                            a = Some(blk.stmts.len() - 1);
+                        } else {
+                            die(&format!("{ctx}: no statement follows the @@from anchor: {from}"));
+                        }
                     }
                     let a = a.unwrap_or_else(|| die(&format!("{ctx}: @@from anchor not found in the block: {from}")));
                     // `@@to $` = the last statement of the block
                     let b = if d.to.is_none() { a } else if to == "$" { blk.stmts.len() - 1 } else { b.unwrap_or_else(|| die(&format!("{ctx}: @@to anchor not found after @@from: {to}"))) };
-                    let lo = blk.stmts[a].span().byte_range().start;
+                    let lo = if empty_slice && a == blk.stmts.len() - 1 && from.starts_with('>') && to == "$" { blk.stmts[a].span().byte_range().end } else { blk.stmts[a].span().byte_range().start };
                     let hi = if empty_slice { lo } else { blk.stmts[b].span().byte_range().end };
                     // `$firstK` / `$lastK` = K-th identifier bound by the `let` that is the first / last
                     // statement of the slice (also replaced in the hand-written tail of the wrapper)
